@@ -7,8 +7,29 @@ use std::process::{Command, Stdio};
 pub struct ModelBatch {
     pub exe: String,
     pub reqs: Vec<String>,
-    /// (expected response, tag identifying the case)
+    /// (expected response, tag identifying the case).  In an expected response `?` matches any
+    /// single character and a trailing `*` matches any suffix.
     pub expect: Vec<(String, usize)>,
+    /// indices of guard requests: when a guard's response does not match, the model could not
+    /// decide this case (e.g. state budget exceeded) and the remaining requests of the same tag
+    /// are not compared
+    pub guards: Vec<usize>,
+    pub guard_skipped: std::cell::RefCell<Vec<(usize, String)>>,
+}
+
+pub fn wild_eq(expected: &str, got: &str) -> bool {
+    if let Some(p) = expected.strip_suffix('*') {
+        return got.len() >= p.len() && wild_eq_exact(p, &got[..p.len()]);
+    }
+    wild_eq_exact(expected, got)
+}
+
+fn wild_eq_exact(e: &str, g: &str) -> bool {
+    if !e.contains('?') {
+        return e == g;
+    }
+    let (eb, gb) = (e.as_bytes(), g.as_bytes());
+    eb.len() == gb.len() && eb.iter().zip(gb).all(|(a, b)| *a == b'?' || a == b)
 }
 
 pub struct Mismatch {
@@ -21,12 +42,16 @@ pub struct Mismatch {
 
 impl ModelBatch {
     pub fn new(exe: &str) -> Self {
-        ModelBatch { exe: exe.to_string(), reqs: vec![], expect: vec![] }
+        ModelBatch { exe: exe.to_string(), reqs: vec![], expect: vec![], guards: vec![], guard_skipped: Default::default() }
     }
     pub fn push(&mut self, req: String, expected: String, tag: usize) {
         debug_assert!(!req.contains('\n'));
         self.reqs.push(req);
         self.expect.push((expected, tag));
+    }
+    pub fn push_guard(&mut self, req: String, expected: String, tag: usize) {
+        self.guards.push(self.reqs.len());
+        self.push(req, expected, tag);
     }
     pub fn len(&self) -> usize {
         self.reqs.len()
@@ -61,8 +86,19 @@ impl ModelBatch {
         }
         let lines = Self::run_raw(&self.exe, &self.reqs)?;
         let mut res = vec![];
+        let mut dead_tags: std::collections::HashSet<usize> = Default::default();
         for (i, got) in lines.iter().enumerate() {
-            if *got != self.expect[i].0 {
+            if dead_tags.contains(&self.expect[i].1) {
+                continue;
+            }
+            if self.guards.contains(&i) {
+                if !wild_eq(&self.expect[i].0, got) {
+                    dead_tags.insert(self.expect[i].1);
+                    self.guard_skipped.borrow_mut().push((self.expect[i].1, got.clone()));
+                }
+                continue;
+            }
+            if !wild_eq(&self.expect[i].0, got) {
                 res.push(Mismatch {
                     idx: i,
                     tag: self.expect[i].1,
